@@ -70,17 +70,18 @@ class IterativeReweightedL1(GeneralizedLinearEstimator):
 
         n_features = X.shape[1]
         _penalty = compiled_clone(WeightedL1(self.penalty.alpha, np.ones(n_features)))
-        self.datafit = compiled_clone(self.datafit)
-        self.penalty = compiled_clone(self.penalty)
+        # compiled objects stay local: overwriting self.datafit / self.penalty made a second fit fail
+        datafit = compiled_clone(self.datafit)
+        penalty = compiled_clone(self.penalty)
 
         self.loss_history_ = []
 
         for iter_reweight in range(self.n_reweights):
-            coef_ = self.solver.solve(X, y, self.datafit, _penalty)[0]
-            _penalty.weights = self.penalty.derivative(coef_)
+            coef_ = self.solver.solve(X, y, datafit, _penalty)[0]
+            _penalty.weights = penalty.derivative(coef_)
 
-            loss = (self.datafit.value(y, coef_, X @ coef_)
-                    + self.penalty.value(coef_))
+            loss = (datafit.value(y, coef_, X @ coef_)
+                    + penalty.value(coef_))
             self.loss_history_.append(loss)
 
             if self.solver.verbose:
